@@ -130,6 +130,16 @@ pub fn generate(g: &mut Gen, thorough: bool) {
             icl.push('e');
         }
         case(g, "default", "geodesic", "I", "0123", "", &i, &icl, "geodesic-inv", true);
+        // nearly antipodal pairs: no solution, or a solution that leads back
+        let mut r: Vec<[f64; 4]> = vec![];
+        for (la, lo, lb, lo2) in [(0.0, 0.0, 0.5, 179.7), (0.0, 0.0, 0.0, 179.9), (30.0, 0.0, -30.0, 179.999), (10.0, 20.0, -10.2, -160.3), (-45.0, 100.0, 44.9, -80.2), (0.0, 0.0, 0.3, 179.0), (20.0, 10.0, -19.0, -171.5)] {
+            r.push([la, lo, lb, lo2]);
+        }
+        for _ in 0..6 {
+            let (la, lo) = (g.rng.uniform(-60.0, 60.0), g.rng.uniform(-170.0, 170.0));
+            r.push([la, lo, -la + g.rng.uniform(-0.6, 0.6), lo + 180.0 + g.rng.uniform(-0.6, 0.6)]);
+        }
+        case(g, "default", "geodesic reversible", "I", "0123", "", &r, &"v".repeat(r.len()), "geodesic-near-antipodal", true);
     }
     // grids: inside and outside the coverage, with and without the null grid
     for (def, worked, kept) in [
@@ -146,6 +156,12 @@ pub fn generate(g: &mut Gen, thorough: bool) {
         for (lon, lat) in [(30.0f64, 56.0f64), (12.0, 20.0), (-100.0, -40.0), (12.0, 70.0)] {
             pts.push([lon.to_radians(), lat.to_radians(), 10.0, 2000.0]);
             cl.push(if null { 'u' } else { 'o' });
+        }
+        // the half-cell margin band on every side (test grids: 54-58 N, 8-16 E, cells of one degree):
+        // whatever comes back counted must be right
+        for (lon, lat) in [(12.0f64, 53.501f64), (12.0, 53.505), (12.0, 53.51), (11.3, 53.6), (12.0, 53.9), (12.0, 58.1), (12.0, 58.49), (12.0, 58.499), (7.505, 56.0), (7.51, 55.5), (7.9, 56.0), (16.1, 56.0), (16.49, 57.0), (16.499, 55.0), (7.6, 53.6), (16.4, 58.4)] {
+            pts.push([lon.to_radians(), lat.to_radians(), 10.0, 2000.0]);
+            cl.push('v');
         }
         for q in nan_variants(&mut g.rng, pts[0]) {
             pts.push(q);
